@@ -10,6 +10,7 @@ from common import (VERIF, NCPU, snapshot_repo, build_tool, regen, check_obligat
                     mkscratch, run, build_model, run_lines)
 import c09_lib as L
 import c09_kill as K
+import c09_fields as F
 
 MAX_REPORT = 12
 # theorems of Properties_C09.v that are stated for every loader of the shape Content.LoaderModel.loader with regular, EOF-strict
@@ -118,12 +119,23 @@ def damaged_sweeps(chk, tool, asan, model_exe, work, tier, stats):
         ex = L.mutants_exhaustive(base)
         by = L.mutants_bytes(base)
         rnd = L.mutants_random(base, rng, 150 if quick else 2000)
+        try:
+            bnd = F.boundary_mutants(base, quick)
+            nfields = len(F.string_fields(base))
+        except Exception as e:      # the independent decoder does not follow this file: say so, do not hide it
+            bnd, nfields = [], 0
+            chk.notes.append('string-field walk failed on shape %s: %r' % (spec['name'], e))
         off = rng.randrange(1 << 30)
 
         def sample(ms, k):
             return ms if k <= 1 else ms[off % k::k]
         plan = []     # (binary, sanitize, cmd, mode, mutants, tag)
         plan.append((tool, False, ['status'], 'conf', ex, 'status'))
+        # boundary-aimed: string length prefixes around the buffer capacities (UUID_MAX, PATH_MAX), 2^31, 2^32-1, over-long varints
+        plan.append((asan, True, ['status'], 'conf', bnd, 'asan_strlen_status'))
+        plan.append((asan, True, None, 'noconf', sample(bnd, 2) if quick else bnd, 'asan_strlen_noconf'))
+        if not quick:
+            plan.append((tool, False, ['list'], 'conf', bnd, 'strlen_list'))
         if quick:
             plan.append((asan, True, ['status'], 'conf', ex if si in (0, 3) else sample(ex, 6), 'asan_status'))
             plan.append((asan, True, None, 'noconf', ex if si == 4 else sample(ex, 6), 'asan_noconf'))
@@ -155,10 +167,10 @@ def damaged_sweeps(chk, tool, asan, model_exe, work, tier, stats):
             shape_runs += n
             merge(classes, cl)
             report_bad(chk, counter, tag, spec, conf, base, bad, cmd, mode, san)
-        distinct += len(ex) + len(by) + len(rnd)
+        distinct += len(ex) + len(by) + len(rnd) + len(bnd)
         # model <-> C on the loader: `snapraid -C` and the extracted CodecModel.decode (no configuration) on the valid file and on
         # every mutant: accept/reject must agree (else MODEL-DRIFT); the reject kind (end of file / other) is compared and counted
-        allm = ex + (sample(by, 3) if quick else by) + rnd
+        allm = ex + (sample(by, 3) if quick else by) + rnd + (sample(bnd, 2) if quick else bnd)
         bad, n, cl, per = sw.run(tool, base, allm, None, mode='noconf', want=True)
         total_runs += n
         shape_runs += n
@@ -193,7 +205,7 @@ def damaged_sweeps(chk, tool, asan, model_exe, work, tier, stats):
             chk.violation('modified_' + spec['name'], 'commands refused for a damaged content file nevertheless modified the array %s: %s' % (spec['name'], '; '.join(d[:4])),
                           dict(shape=spec, conf=conf, diff=d))
         per_shape.append(dict(shape=spec['name'], bytes=len(base), version=base[7:8].decode(), truncations=len(base), single_bits=8 * len(base),
-                              byte_substitutions=len(by), random_damage=len(rnd), runs=shape_runs, wall_s=round(time.time() - t0, 1)))
+                              byte_substitutions=len(by), random_damage=len(rnd), string_fields=nfields, string_length_mutants=len(bnd), runs=shape_runs, wall_s=round(time.time() - t0, 1)))
         if si == 1:
             total_runs += two_copies(chk, tool, root, spec, base, sw, sample(ex, 40 if quick else 4), stats, counter)
         if len(chk.cov['samples']) < 8:
@@ -271,14 +283,13 @@ def kill_points(chk, tool, shim, model_exe, work, tier, stats):
         except L.ArrayError as e:
             chk.violation('kill_setup_%d' % nc, 'kill-point scenario with %d content copies could not be set up: %s' % (nc, str(e)[:300]), dict(error=str(e)))
             continue
-        nprot = nkill = 0
+        ncat = {}
         for what, rep in probs:
-            iskill = isinstance(rep, dict) and 'kill_at' in rep
-            if reported < 10 and ((iskill and nkill < 3) or (not iskill and nprot < 3)):
+            cat = 'kill' if (isinstance(rep, dict) and 'kill_at' in rep) else 'fault' if (isinstance(rep, dict) and 'fault_at' in rep) else 'protocol'
+            if reported < 12 and ncat.get(cat, 0) < 3:
                 reported += 1
-                nkill += iskill
-                nprot += not iskill
-                chk.violation('kill_%dcopies' % nc, what, rep)
+                ncat[cat] = ncat.get(cat, 0) + 1
+                chk.violation('%s_%dcopies' % (cat, nc), what, rep)
         # model <-> C: the extracted SaveModel.save_ops must be the call sequence the binary performed, round by round
         for rnd in sc.rounds:
             got, sizes = K.log_calls(sc.twin_ev, sc.contents, rnd)
@@ -294,7 +305,7 @@ def kill_points(chk, tool, shim, model_exe, work, tier, stats):
                                   len(got), len(exp), k, got[k:k + 3], exp[k:k + 3]), dict(model_line=line, real=got, model=exp), no_input=True)
         st = dict(sc.stats, copies=nc, big=big)
         allstats.append(st)
-        total += st.get('kills', 0) * 4 + 8
+        total += st.get('kills', 0) * 4 + 8 + st.get('faults', 0) * 2
         if nc == 2 and not big:
             chk.cov['samples'].append(dict(kind='kill point', copies=2, calls=[('%(n)d %(op)s %(path)s' % e) for e in sc.twin_ev if e['n'] > 0][:30]))
         shutil.rmtree(root, ignore_errors=True)
